@@ -129,7 +129,7 @@ func genFaults(r *Rand, p *Project, light bool) []Fault {
 	n := r.Range(1, 3)
 	var files []GenFile
 	for _, f := range p.Files {
-		if !strings.HasSuffix(f.Path, "/") {
+		if !strings.HasSuffix(f.Path, "/") && f.Special == "" { // never write into a named pipe: that blocks the harness itself
 			files = append(files, f)
 		}
 	}
@@ -590,6 +590,21 @@ func (e diskEngine) Exec(c *Case, job *Job) *Result {
 	ops := simrt.Ops()
 	simrt.SetOSHook(nil)
 	log := disk.log
+	// kit.NewJapi may look at the root before it reads it (a root that is not a regular file is
+	// refused without being opened, fix F19). The oracles reason about "the read of the root":
+	// a stat of the root directly in front of that read is folded into it; a stat that is not
+	// followed by the read stands for a root that could not be read.
+	if c.Entry == "path" && len(log) > 0 && log[0].Op == "stat" && cleanPath(log[0].Path) == cleanPath(relCwd(spellRoot(c.Project.Root, c.RootAs))) {
+		if len(log) > 1 && log[1].Op == "read" && cleanPath(log[1].Path) == cleanPath(log[0].Path) {
+			log = log[1:]
+			res.count("probe:root-stat-before-read", 1)
+		} else {
+			first := log[0]
+			first.Op, first.Result = "read", "refused after stat ("+first.Result+")"
+			log = append([]Access{first}, log[1:]...)
+			res.count("probe:root-refused-after-stat", 1)
+		}
+	}
 	served := 0
 	for _, a := range log {
 		served += a.Len
@@ -643,7 +658,7 @@ func (e diskEngine) Exec(c *Case, job *Job) *Result {
 			garbage = true
 		}
 	}
-	modelAsserted := (strings.HasPrefix(c.Project.Kind, "light") || c.Project.Kind == "generated-valid" || c.Project.Kind == "generated-late-defect" || c.Project.Kind == "multi-defect" || c.Project.Kind == "single-defect" || c.Project.Kind == "macro-graph" || strings.HasPrefix(c.Project.Kind, "special")) && !garbage
+	modelAsserted := (strings.HasPrefix(c.Project.Kind, "light") || c.Project.Kind == "generated-valid" || c.Project.Kind == "generated-late-defect" || c.Project.Kind == "multi-defect" || c.Project.Kind == "single-defect" || c.Project.Kind == "macro-graph" || strings.HasPrefix(c.Project.Kind, "special")) && !garbage && !strings.HasSuffix(c.Project.Kind, "-fifo") // the include model knows files, directories and holes, not pipes
 	for _, f := range c.Faults {
 		if f.Kind == "flip" || f.Kind == "setbyte" || f.Kind == "lost-zero" || f.Kind == "filler-tail" {
 			if !strings.HasPrefix(c.Project.Kind, "light") {
